@@ -2,9 +2,17 @@
 """prints the prompt given to an independent mutant-seeding sub-agent for one property (nothing from /verif leaks into it)"""
 import json, sys
 pid = sys.argv[1]
-wt = "/tmp/seed-" + pid
+wave = sys.argv[2] if len(sys.argv) > 2 else ""
+wt = "/tmp/seed-" + pid + wave
+import glob, os
+avoid = []
+for m in sorted(glob.glob('/verif/seeded/%s-m*/meta.json' % pid)):
+    try:
+        avoid.append(json.load(open(m)).get('summary', '')[:400])
+    except Exception:
+        pass
 p = next(json.loads(l) for l in open('/verif/properties.jsonl') if json.loads(l)['id'] == pid)
-print(f"""You are given a scratch git worktree of the Go project drand/drand (a randomness-beacon daemon: DKG + threshold BLS + chain sync) at {wt}. Work ONLY inside {wt} (never touch /repo or /verif, never read anything under /verif). There is no network. Use Go like this:
+text = (f"""You are given a scratch git worktree of the Go project drand/drand (a randomness-beacon daemon: DKG + threshold BLS + chain sync) at {wt}. Work ONLY inside {wt} (never touch /repo or /verif, never read anything under /verif). There is no network. Use Go like this:
   export GOFLAGS=-mod=mod GOPROXY=off GOSUMDB=off GOTOOLCHAIN=local; GO=/root/go/pkg/mod/golang.org/toolchain@v0.0.1-go1.25.0.linux-amd64/bin/go
   (cd {wt} && $GO build ./... && $GO test -vet=off -count=1 ./path/to/pkg/...)
 The multi-node tests need `-tags conn_insecure` (without the tag a fixed set of ~38 networked tests always fails — that is expected and the same before and after your change).
@@ -24,4 +32,8 @@ For each change k in {{1,2}} deliver, in directory {wt}/OUT/m$k/ :
   - meta.json : {{"property": "{pid}", "summary": "...what was changed...", "clause_broken": "...which part of the statement...", "needs_to_manifest": "...the specific input/interleaving/sequence/fault...", "demo_file": "...", "demo_place_at": "...", "demo_cmd": "...", "suite_checked": "...which packages' tests you ran with the change and the result..."}}
 Verify yourself, for each change: (1) builds; (2) demo fails with it and passes without it (use `git stash`/`git apply -R` to switch); (3) existing tests of affected packages pass as before. Leave the worktree CLEAN at the end (`git status` shows only the untracked OUT/ directory): no source change applied, no demo file left outside OUT/.
 
-Final answer: for each change a 3-line summary (what, what it needs to manifest, verification results). If you could only produce one sound change, say so.""")
+{{AVOID}}Final answer: for each change a 3-line summary (what, what it needs to manifest, verification results). If you could only produce one sound change, say so.""")
+av = ""
+if avoid:
+    av = "Earlier seeded changes for this property are summarised below; produce changes that are DIFFERENT from them (another clause of the statement, another file, another mechanism):\n" + "\n".join("  - " + a for a in avoid) + "\n\n"
+print(text.replace("{AVOID}", av))
